@@ -129,13 +129,14 @@ struct Mon : public InterpreterMonitor {
 	void afterCompletion(const std::string& sid) override { rec("KA", sid.substr(0, 8)); }
 	void beforeEnteringState(const std::string& sid, const std::string& n, const XERCESC_NS::DOMElement* s) override { rec("NB", sid.substr(0, 8) + " " + nm(s)); }
 	void beforeExitingState(const std::string& sid, const std::string& n, const XERCESC_NS::DOMElement* s) override { rec("XB", sid.substr(0, 8) + " " + nm(s)); }
+	static std::string cancelId(const XERCESC_NS::DOMElement* e) { return HAS_ATTR(e, kXMLCharSendId) ? ATTR(e, kXMLCharSendId) : std::string("expr:") + ATTR(e, kXMLCharSendIdExpr); }
 	void beforeExecutingContent(const std::string& sid, const XERCESC_NS::DOMElement* e) override {
 		std::string t = TAGNAME(e);
-		if (t == "send" || t == "cancel") rec("CB", sid.substr(0, 8) + " " + t + " " + (t == "send" ? ATTR(e, kXMLCharEvent) + " " + (HAS_ATTR(e, kXMLCharDelay) ? ATTR(e, kXMLCharDelay) : "0") + " " + (HAS_ATTR(e, kXMLCharId) ? ATTR(e, kXMLCharId) : "-") : ATTR(e, kXMLCharSendId)));
+		if (t == "send" || t == "cancel") rec("CB", sid.substr(0, 8) + " " + t + " " + (t == "send" ? ATTR(e, kXMLCharEvent) + " " + (HAS_ATTR(e, kXMLCharDelay) ? ATTR(e, kXMLCharDelay) : "0") + " " + (HAS_ATTR(e, kXMLCharId) ? ATTR(e, kXMLCharId) : "-") : cancelId(e)));
 	}
 	void afterExecutingContent(const std::string& sid, const XERCESC_NS::DOMElement* e) override {
 		std::string t = TAGNAME(e);
-		if (t == "send" || t == "cancel") rec("CA", sid.substr(0, 8) + " " + t + " " + (t == "send" ? ATTR(e, kXMLCharEvent) : ATTR(e, kXMLCharSendId)));
+		if (t == "send" || t == "cancel") rec("CA", sid.substr(0, 8) + " " + t + " " + (t == "send" ? ATTR(e, kXMLCharEvent) : cancelId(e)));
 	}
 	void beforeInvoking(const std::string& sid, const XERCESC_NS::DOMElement* e, const std::string& id) override { rec("IB", sid.substr(0, 8) + " " + id); }
 	void afterInvoking(const std::string& sid, const XERCESC_NS::DOMElement* e, const std::string& id) override { rec("IA", sid.substr(0, 8) + " " + id); }
